@@ -170,8 +170,6 @@ Require Verif.Tie.Vers.Printers.
 Require Verif.Tie.Vers.Pypi.
 Require Verif.Tie.Vers.Texts.
 Require Verif.Tie.Vers.Valid.
-Require Verif.Tie.E2E.VersDeb.
-Require Verif.Tie.E2E.VersRpm.
 Definition C16_tie_shouldMergeConstraints_tie := @Verif.Tie.Vers.Code.shouldMergeConstraints_tie.
 Definition C16_tie_ensureVPrefix_tie := @Verif.Tie.Vers.Code.ensureVPrefix_tie.
 Definition C16_tie_parseConstraint_tie := @Verif.Tie.Vers.Constraints.parseConstraint_tie.
@@ -228,12 +226,6 @@ Definition C16_tie_valid_tie := @Verif.Tie.Vers.Valid.valid_tie.
 Definition C16_tie_valid_finished := @Verif.Tie.Vers.Valid.valid_finished.
 Definition C16_tie_scheme_tie := @Verif.Tie.Vers.Valid.scheme_tie.
 Definition C16_tie_scheme_finished := @Verif.Tie.Vers.Valid.scheme_finished.
-Definition C16_tie_debian_contains_e2e := @Verif.Tie.E2E.VersDeb.debian_contains_e2e.
-Definition C16_tie_debianContains_e2e := @Verif.Tie.E2E.VersDeb.debianContains_e2e.
-Definition C16_tie_vers_deb_e2e := @Verif.Tie.E2E.VersDeb.vers_deb_e2e.
-Definition C16_tie_rpm_contains_e2e := @Verif.Tie.E2E.VersRpm.rpm_contains_e2e.
-Definition C16_tie_rpmContains_e2e := @Verif.Tie.E2E.VersRpm.rpmContains_e2e.
-Definition C16_tie_vers_rpm_e2e := @Verif.Tie.E2E.VersRpm.vers_rpm_e2e.
-Definition C16_ties_all := (C16_tie_Contains_no_panic, (C16_tie_Contains_tie, (C16_tie_alpine_printer_tie, (C16_tie_alternatingIntervals_no_panic, (C16_tie_alternatingIntervals_tie, (C16_tie_alternatingIntervals_tie_finished, (C16_tie_alternatingIntervals_total, (C16_tie_cargo_printer_tie, (C16_tie_ccmp_le_total, (C16_tie_collect_tie, (C16_tie_constraintsIncludePrerelease_finished, (C16_tie_constraintsIncludePrerelease_tie, (C16_tie_containsPrereleaseMarkers_finished, (C16_tie_containsPrereleaseMarkers_tie, (C16_tie_contains_no_panic, (C16_tie_contains_tie, (C16_tie_debianContains_e2e, (C16_tie_debian_contains_e2e, (C16_tie_debian_printer_tie, (C16_tie_ensureVPrefix_tie, (C16_tie_ensures_finished, (C16_tie_gem_printer_tie, (C16_tie_golang_printer_tie, (C16_tie_groupConstraintsIntoIntervals_no_panic, (C16_tie_groupConstraintsIntoIntervals_tie, (C16_tie_groupConstraintsIntoIntervals_tie_finished, (C16_tie_groupConstraintsIntoIntervals_total, (C16_tie_isPyPIPrerelease_tie, (C16_tie_maven_printer_tie, (C16_tie_normalizeConstraints_no_panic, (C16_tie_normalizeConstraints_tie, (C16_tie_normalize_go_tie, (C16_tie_npm_printer_tie, (C16_tie_nuget_printer_tie, (C16_tie_parseConstraint_finished, (C16_tie_parseConstraint_tie, (C16_tie_parseConstraints_finished, (C16_tie_parseConstraints_normalize, (C16_tie_parseConstraints_tie, (C16_tie_printers_keys, (C16_tie_printers_len, (C16_tie_printers_len', (C16_tie_printers_match_style_table, (C16_tie_printers_on_model_interval, (C16_tie_printers_texts, (C16_tie_printers_texts_normalize, (C16_tie_pypiContains_tie, (C16_tie_pypi_printer_tie, (C16_tie_rpmContains_e2e, (C16_tie_rpm_contains_e2e, (C16_tie_rpm_printer_tie, (C16_tie_scheme_finished, (C16_tie_scheme_tie, (C16_tie_semver_printer_tie, (C16_tie_shouldMergeConstraints_tie, (C16_tie_toRanges_no_panic, (C16_tie_toRanges_normalize, (C16_tie_toRanges_tie, (C16_tie_valid_finished, (C16_tie_valid_tie, (C16_tie_vers_deb_e2e, C16_tie_vers_rpm_e2e))))))))))))))))))))))))))))))))))))))))))))))))))))))))))))).
+Definition C16_ties_all := (C16_tie_Contains_no_panic, (C16_tie_Contains_tie, (C16_tie_alpine_printer_tie, (C16_tie_alternatingIntervals_no_panic, (C16_tie_alternatingIntervals_tie, (C16_tie_alternatingIntervals_tie_finished, (C16_tie_alternatingIntervals_total, (C16_tie_cargo_printer_tie, (C16_tie_ccmp_le_total, (C16_tie_collect_tie, (C16_tie_constraintsIncludePrerelease_finished, (C16_tie_constraintsIncludePrerelease_tie, (C16_tie_containsPrereleaseMarkers_finished, (C16_tie_containsPrereleaseMarkers_tie, (C16_tie_contains_no_panic, (C16_tie_contains_tie, (C16_tie_debian_printer_tie, (C16_tie_ensureVPrefix_tie, (C16_tie_ensures_finished, (C16_tie_gem_printer_tie, (C16_tie_golang_printer_tie, (C16_tie_groupConstraintsIntoIntervals_no_panic, (C16_tie_groupConstraintsIntoIntervals_tie, (C16_tie_groupConstraintsIntoIntervals_tie_finished, (C16_tie_groupConstraintsIntoIntervals_total, (C16_tie_isPyPIPrerelease_tie, (C16_tie_maven_printer_tie, (C16_tie_normalizeConstraints_no_panic, (C16_tie_normalizeConstraints_tie, (C16_tie_normalize_go_tie, (C16_tie_npm_printer_tie, (C16_tie_nuget_printer_tie, (C16_tie_parseConstraint_finished, (C16_tie_parseConstraint_tie, (C16_tie_parseConstraints_finished, (C16_tie_parseConstraints_normalize, (C16_tie_parseConstraints_tie, (C16_tie_printers_keys, (C16_tie_printers_len, (C16_tie_printers_len', (C16_tie_printers_match_style_table, (C16_tie_printers_on_model_interval, (C16_tie_printers_texts, (C16_tie_printers_texts_normalize, (C16_tie_pypiContains_tie, (C16_tie_pypi_printer_tie, (C16_tie_rpm_printer_tie, (C16_tie_scheme_finished, (C16_tie_scheme_tie, (C16_tie_semver_printer_tie, (C16_tie_shouldMergeConstraints_tie, (C16_tie_toRanges_no_panic, (C16_tie_toRanges_normalize, (C16_tie_toRanges_tie, (C16_tie_valid_finished, C16_tie_valid_tie))))))))))))))))))))))))))))))))))))))))))))))))))))))).
 Print Assumptions C16_ties_all.
 (* ====== ties to the source: END ====== *)
